@@ -6,15 +6,19 @@ Line protocol for C20.  `T` = the measured library tables of the case:
 Cases:
     hs <tail> T st <stream> ch <n> <size>*n                      Listener.Handshake
     ad <0|1> <user> <pass> <tail> T st <stream> ch <n> <size>*n  SocksAdapter.handleHandshake + handleRequest
+    adc <0|1> <user> <pass> <tail> T st <stream> ch <n> <size>*n SocksAdapter.handleSocksConnection (no session): obs  w <written> left <n> closed <0|1>
     udp T d <datagram>                                           parseUDPHeader, then build + parse again
     ubp T h <host> p <port> pl <payload>                         buildUDPHeader, then parseUDPHeader
-    relay <paced|burst|gated> T ds <n> <datagram>*n              real UDPRelay (readLoop + handlePacket goroutines) -> tunnel doubles
+    conn|live <tail> cfg <mapping> <target> <secret> <hasTunnel> <tunnelOk> <hasRelay> <relayOk> <bindIP> <bindPort> T st <stream> ch <n> <size>*n
+                                                                 Listener.handleConnection with creator doubles (live: via Manager + TCP)
+    relay <paced|burst|gated> <dns 0|1> T ds <n> <datagram>*n    real UDPRelay (readLoop, handlePacket goroutines, receiveLoop, DNS handler) with doubles
 Observations (same for implementation and model):
     hs:  ok <cmd> <host> <port> w <written> left <n>   |  err <stage> w <written> left <n>
     ad:  ok <target> w <written> left <n>              |  err <stage> w <written> left <n>
     udp: err <stage>  |  ok <host> <port> <payload> rb <rebuilt> (ok <host> <port> <payload> | err <stage>)
     ubp: b <built> (ok <host> <port> <payload> | err <stage>)
-    relay: fw <m> (<host> <port> <payload>)*m       every SendPacket (tunnel destination, bytes), sorted as text
+    conn/live: ev <k> (tunnel <mapping> <target> <host> <port> <secret> <data> | relay <mapping> <target> <secret>)*k w <written> closed <0|1>
+    relay: fw <m> (<host> <port> <payload>)*m dq <k> (<server> <query>)*k rx <j> <datagram>*j    each list sorted as text
 -/
 namespace Tunnox.Drv.C20
 open Tunnox.C20
@@ -230,10 +234,52 @@ def parseUbpObs : List String → Option BObs
     if ts.isEmpty then pure ⟨b, p⟩ else none
   | _ => none
 
+/-! ### conn / live -/
+
+def b01 (s : String) : Bool := s == "1"
+
+def parseConnCase : List String → Option (ConnCfg × StreamCase)
+  | tl :: "cfg" :: m :: t :: sk :: ht :: tok :: hr :: rok :: bip :: bp :: ts => do
+    let cfg : ConnCfg := ⟨← bytesOfHex m, ← t.toNat?, ← bytesOfHex sk, b01 ht, b01 tok, b01 hr, b01 rok,
+      ← bytesOfHex bip, ← bp.toNat?⟩
+    let sc ← parseHsCase (tl :: ts)
+    pure (cfg, sc)
+  | _ => none
+
+def connEvStr : ConnEv → String
+  | .tunnel m t h p sk d => s!" tunnel {hexOfBytes m} {t} {hexOfBytes h} {p} {hexOfBytes sk} {hexOfBytes d}"
+  | .relay m t sk => s!" relay {hexOfBytes m} {t} {hexOfBytes sk}"
+
+def connObsStr (o : ConnObs) : String :=
+  o.events.foldl (fun acc e => acc ++ connEvStr e) s!"ev {o.events.length}" ++
+    s!" w {hexOfBytes o.written} closed {if o.closed then 1 else 0}"
+
+def parseConnEvs : Nat → List String → Option (List ConnEv × List String)
+  | 0, ts => some ([], ts)
+  | n + 1, "tunnel" :: m :: t :: h :: p :: sk :: d :: ts => do
+    let (r, ts') ← parseConnEvs n ts
+    pure (.tunnel (← bytesOfHex m) (← t.toNat?) (← bytesOfHex h) (← p.toNat?) (← bytesOfHex sk) (← bytesOfHex d) :: r, ts')
+  | n + 1, "relay" :: m :: t :: sk :: ts => do
+    let (r, ts') ← parseConnEvs n ts
+    pure (.relay (← bytesOfHex m) (← t.toNat?) (← bytesOfHex sk) :: r, ts')
+  | _, _ => none
+
+def parseConnObs : List String → Option ConnObs
+  | "ev" :: k :: ts => do
+    let (evs, ts) ← parseConnEvs (← k.toNat?) ts
+    match ts with
+    | "w" :: w :: "closed" :: cl :: [] => pure ⟨evs, ← bytesOfHex w, b01 cl⟩
+    | _ => none
+  | _ => none
+
+def modelConn (cfg : ConnCfg) (c : StreamCase) : String :=
+  connObsStr (handleConnection c.ip cfg ⟨chunkBy c.chunks c.stream, c.tail⟩)
+
 /-! ### relay -/
 
 structure RelayCase where
   mode : String
+  dns : Bool
   ip : IPText
   ds : List Bytes
 
@@ -246,14 +292,14 @@ def parseHexN : Nat → List String → Option (List Bytes)
   | _, _ => none
 
 def parseRelayCase : List String → Option RelayCase
-  | mode :: ts => do
+  | mode :: dns :: ts => do
     let (ip, ts) ← parseTables ts
     match ts with
     | "ds" :: n :: ts => do
       let n ← n.toNat?
       if ts.length != n then none else
       let ds ← parseHexN n ts
-      pure ⟨mode, ip, ds⟩
+      pure ⟨mode, dns == "1", ip, ds⟩
     | _ => none
   | _ => none
 
@@ -265,24 +311,50 @@ def relaySchedule (mode : String) (n : Nat) : List RStep :=
   else if mode == "burst" then List.replicate n RStep.read ++ (List.range n).reverse.map RStep.run
   else List.replicate n RStep.read ++ List.replicate n (RStep.run 0)
 
+/-- How the harness doubles answer: the tunnel `A5 ++ payload`, the DNS handler `D5 ++ query`. -/
+def harnessAnswer (isDns : Bool) (p : Bytes) : Bytes := (if isDns then 213 else 165) :: p
+
 def destStr (d : UDest) : String := s!"{hexOfBytes d.host} {d.port} {hexOfBytes d.payload}"
 
-def relayObsStr (sent : List UDest) : String :=
-  let xs := (sent.map destStr).mergeSort (fun a b => !decide (b < a))
-  xs.foldl (fun acc x => acc ++ " " ++ x) s!"fw {sent.length}"
+def sortedJoin (hdr : String) (xs : List String) : String :=
+  (xs.mergeSort (fun a b => !decide (b < a))).foldl (fun acc x => acc ++ " " ++ x) s!"{hdr} {xs.length}"
+
+def relayIOStr (o : RelayIO) : String :=
+  sortedJoin "fw" (o.fw.map destStr) ++ " " ++
+  sortedJoin "dq" (o.dq.map (fun q => s!"{hexOfBytes q.1} {hexOfBytes q.2}")) ++ " " ++
+  sortedJoin "rx" (o.rx.map hexOfBytes)
 
 def modelRelay (c : RelayCase) : String :=
-  relayObsStr ((Relay.init c.ds).exec c.ip .copyAtRead (relaySchedule c.mode c.ds.length)).sent
+  relayIOStr (relayIO c.ip c.dns harnessAnswer
+    ((Relay.init c.ds).exec c.ip .copyAtRead (relaySchedule c.mode c.ds.length)).sent)
 
-def parseDests : Nat → List String → Option (List UDest)
-  | 0, [] => some []
+def parseDests : Nat → List String → Option (List UDest × List String)
+  | 0, ts => some ([], ts)
   | n + 1, h :: p :: pl :: ts => do
-    let r ← parseDests n ts
-    pure (⟨← bytesOfHex h, ← p.toNat?, ← bytesOfHex pl⟩ :: r)
+    let (r, ts') ← parseDests n ts
+    pure (⟨← bytesOfHex h, ← p.toNat?, ← bytesOfHex pl⟩ :: r, ts')
   | _, _ => none
 
-def parseRelayObs : List String → Option (List UDest)
-  | "fw" :: m :: ts => do parseDests (← m.toNat?) ts
+def parseQueries : Nat → List String → Option (List (Text × Bytes) × List String)
+  | 0, ts => some ([], ts)
+  | n + 1, sv :: q :: ts => do
+    let (r, ts') ← parseQueries n ts
+    pure ((← bytesOfHex sv, ← bytesOfHex q) :: r, ts')
+  | _, _ => none
+
+def parseRelayObs : List String → Option RelayIO
+  | "fw" :: m :: ts => do
+    let (fw, ts) ← parseDests (← m.toNat?) ts
+    match ts with
+    | "dq" :: k :: ts => do
+      let (dq, ts) ← parseQueries (← k.toNat?) ts
+      match ts with
+      | "rx" :: j :: ts => do
+        let j ← j.toNat?
+        if ts.length != j then none else
+        pure ⟨fw, dq, ← parseHexN j ts⟩
+      | _ => none
+    | _ => none
   | _ => none
 
 /-! ### entry points -/
@@ -304,6 +376,20 @@ def runModel (ts : List String) : String :=
   | "ubp" :: rest =>
     match parseUbpCase rest with
     | some c => let o := modelUbp c; s!"b {hexOfBytes o.built} {uOutStr o.parsed}"
+    | none => "bad-case"
+  | "adc" :: rest =>
+    match parseAdCase rest with
+    | some (cfg, c) =>
+      let r := adConnection c.ip cfg ⟨chunkBy c.chunks c.stream, c.tail⟩
+      s!"w {hexOfBytes r.1} left {r.2.flat.length} closed 1"
+    | none => "bad-case"
+  | "conn" :: rest =>
+    match parseConnCase rest with
+    | some (cfg, c) => modelConn cfg c
+    | none => "bad-case"
+  | "live" :: rest =>
+    match parseConnCase rest with
+    | some (cfg, c) => modelConn cfg c
     | none => "bad-case"
   | "relay" :: rest =>
     match parseRelayCase rest with
@@ -336,9 +422,28 @@ def runHolds (caseToks obsToks : List String) : String :=
     | some c, some o => boolStr (holdsBuild c.ip c.host c.port c.payload o)
     | some _, none => "false"
     | none, _ => "bad-case"
+  | "adc" :: rest =>
+    match parseAdCase rest, obsToks with
+    | some (cfg, c), ["w", w, "left", n, "closed", cl] =>
+      match bytesOfHex w, n.toNat? with
+      | some w, some left =>
+        boolStr (decide (left ≤ c.stream.length) && holdsAdConn cfg c.stream w (c.stream.length - left) (cl == "1"))
+      | _, _ => "false"
+    | some _, _ => "false"
+    | none, _ => "bad-case"
+  | "conn" :: rest =>
+    match parseConnCase rest, parseConnObs obsToks with
+    | some (cfg, c), some o => boolStr (holdsConn c.ip cfg c.stream o)
+    | some _, none => "false"
+    | none, _ => "bad-case"
+  | "live" :: rest =>
+    match parseConnCase rest, parseConnObs obsToks with
+    | some (cfg, c), some o => boolStr (holdsConn c.ip cfg c.stream o)
+    | some _, none => "false"
+    | none, _ => "bad-case"
   | "relay" :: rest =>
     match parseRelayCase rest, parseRelayObs obsToks with
-    | some c, some sent => boolStr (holdsRelay c.ip c.ds sent)
+    | some c, some o => boolStr (holdsRelayIO c.ip c.dns harnessAnswer c.ds o)
     | some _, none => "false"
     | none, _ => "bad-case"
   | _ => "bad-case"
